@@ -124,8 +124,8 @@ CookieDecode(c) ==
 
 (* ------------------------------------------------------------------------ *)
 (* Independent minimal head splitter: lines up to the first empty line.      *)
-FindCRLF(w, i) ==              \* least j >= i with w[j..j+1] = CRLF, 0 if none
-    LET S == {j \in i..(Len(w) - 1) : w[j] = 13 /\ w[j + 1] = 10}
+FindCRLF(w, i) ==              \* least j in i..i+9 with w[j..j+1] = CRLF, 0 if none (a chunk-size line is short)
+    LET S == {j \in i..Min(Len(w) - 1, i + 9) : w[j] = 13 /\ w[j + 1] = 10}
     IN IF S = {} THEN 0 ELSE SetMin(S)
 
 CRLFPositions(w) == {j \in 1..(Len(w) - 1) : w[j] = 13 /\ w[j + 1] = 10}     \* one pass over the bytes
@@ -161,7 +161,8 @@ ValChunked == <<99, 104, 117, 110, 107, 101, 100>>
 
 \* values of all field lines (index >= 2) with the given lower-case name
 FieldsNamed(lines, lname) ==
-    LET idx == {k \in 2..Len(lines) : LowerSeq(FieldName(lines[k])) = lname}
+    LET idx == {k \in 2..Len(lines) : Len(lines[k]) > Len(lname) /\ lines[k][Len(lname) + 1] = 58
+                                       /\ LowerSeq(SubSeq(lines[k], 1, Len(lname))) = lname}
     IN [k \in idx |-> FieldValue(lines[k])]
 
 (* ------------------------------------------------------------------------ *)
